@@ -101,7 +101,9 @@ def oracle(samples, o):
         for i, s in enumerate(samples):
             kwargs = {}
             for k, v in s.items():
-                kwargs[prepare_label(k, convert_unicode=oo["unidecode"], to_snake_case=True)] = copy.deepcopy(v)
+                lab = prepare_label(k, convert_unicode=oo["unidecode"], to_snake_case=True)
+                # attrs: a "private" attribute _x is passed to the generated __init__ as x
+                kwargs[lab.lstrip("_") if oo["fw"] == "attrs" and lab.startswith("_") and lab.lstrip("_") else lab] = copy.deepcopy(v)
             try:
                 inst = cls(**kwargs)
             except Exception as e:  # noqa
@@ -236,7 +238,7 @@ def run(chk, build):
             s, o = CORPUS[i]
         else:
             dt = r.random() < 0.3
-            keys = ["a", "b", "c", "d", "e"]
+            keys = ["a", "b", "c", "d", "e"] if i % 3 else ["a", "_id", "_rev", "userName", "class", "list", "Field-Name", "b"]
             ns = r.randint(1, 3)
             s = [{k: pseudo_value(r.choice([0, 1, 2, 3]), r, dt) for k in r.sample(keys, r.randint(1, 4))} for _ in range(ns)]
             o = {"fw": r.choice(["attrs", "dataclasses"]), "converters": r.random() < 0.7, "rn": RN6 if dt else RN3,
